@@ -193,3 +193,52 @@ class EcValueFits:
     def ensures(self, equipment_constant, value, result):
         # literally the post-condition of EcValueFitsAbs, with the ghost limits set to the range of the type
         return result == (equipment_constant.g_tlo <= value and value <= equipment_constant.g_thi)
+
+
+# ===================================================================== S2F29: the namelist of the requested constants (bounded shape)
+@contract("secsgem.secs.functions.streams_functions:StreamsFunctions.decode", "C13", name="DecodeS2F29Abs")
+class DecodeS2F29Abs:
+    """ASSUMED (C03): the decoded S2F29 is the list of its ECID items (ghost: the request the unit quantifies over)."""
+
+    abstract = True
+    returns = Same("self.g_req")
+
+
+@contract("secsgem.gem.equipment_constants_capability:EquipmentConstantsCapability._on_s02f29", "C13")
+class OnS2F29:
+    """S2F29 naming 1 or 2 constants (bounded shape; any ids, any table, any coincidence of the ids): S2F30 has one entry
+    per requested id, in request order - the constant's id, name, limits (an empty text for a limit that is not declared),
+    default and unit for a known id, the id with empty texts for an unknown one; the table is not touched.  The request
+    naming no id (all constants) and longer requests: bounded pass."""
+
+    cases = [(f"n{n}", {"n": n}) for n in (1, 2)]
+    uses = [DecodeS2F29Abs, StreamFunctionAbs13, NewFunctionAbs13]
+
+    def inputs(n):
+        return {"self": Obj(GemEquipmentHandler,
+                            _equipment_constants=MapOf(EquipmentConstant, g_has_min=Bool, g_has_max=Bool, min_value=NoneUnless("g_has_min", Int),
+                                                       max_value=NoneUnless("g_has_max", Int), value=Int, ecid=Int, name=Int, default_value=Int, unit=Int),
+                            _settings=Obj(Settings, streams_functions=Obj(StreamsFunctions, g_req=FixedList(*[Obj(AbsItem, g_value=Int) for _ in range(n)])))),
+                "_handler": Const(None), "message": Const(None)}
+
+    def raises():
+        return {}
+
+    def ensures(self, old, result):
+        t, t0 = self._equipment_constants, old.self._equipment_constants
+        req = self._settings.streams_functions.g_req
+        rows = result.g_value
+        out = {"s2f30": result.g_stream == 2 and result.g_function == 30, "one-entry-per-requested-id": len(rows) == len(req),
+               "table-untouched": forall(-2 ** 63, 2 ** 64, lambda k: t[k].value == t0[k].value)}
+        if len(rows) == len(req):
+            for j in range(len(req)):
+                i = req[j].g_value
+                r = rows[j]
+                if i in t0:
+                    c = t0[i]
+                    out[f"known-{j}"] = (r["ECID"] == c.ecid and r["ECNAME"] == c.name and r["ECDEF"] == c.default_value and r["UNITS"] == c.unit
+                                         and r["ECMIN"] == (c.min_value if c.g_has_min else "") and r["ECMAX"] == (c.max_value if c.g_has_max else ""))
+                else:
+                    out[f"unknown-{j}"] = (r["ECID"] is req[j] and r["ECNAME"] == "" and r["ECMIN"] == "" and r["ECMAX"] == "" and r["ECDEF"] == ""
+                                           and r["UNITS"] == "")
+        return out
